@@ -1,6 +1,6 @@
 SPECIFICATION Spec
-CONSTANTS Widths = {2} MaxH = 2 MaxOwn = 2 CtrMax = 2
-  LimbDom = {0, 1, 128, 255, 65535} IdWidths = {0, 1, 2, 3, 4, 5, 6, 7, 8, 9}
+CONSTANTS Widths = {2} MaxH = 2 MaxOwn = 2 CtrMax = 3
+  LimbDom = {0, 1, 127, 128, 255, 32768, 65535} IdWidths = {0, 1, 2, 3, 4, 5, 6, 7, 8, 9}
   StreamWidths = {2}
   MsgDom <- CMsgDom TextDom <- CTextDom
 CONSTRAINT Bound
